@@ -37,6 +37,26 @@ func genC16Case(t *rapid.T) *StructCase {
 		}
 	}
 	var c *StructCase
+	if rapid.IntRange(0, 14).Draw(t, "sameNameTypes") == 0 {
+		// two distinct struct types that print alike, side by side; a rule set registered for one of them
+		item := func(label string) desc.V {
+			return desc.V{E: []desc.V{desc.Str(rapid.SampledFrom([]string{"", "ab", "abcd"}).Draw(t, label+"Name")), {I: int64(rapid.IntRange(0, 3).Draw(t, label+"N"))}}}
+		}
+		holder := desc.T{K: "struct", Fields: []desc.F{
+			{Name: "A", T: desc.Named("ItemA"), Tags: map[string]string{"valid": "required"}},
+			{Name: "B", T: desc.Named("ItemB"), Tags: map[string]string{"valid": "required"}},
+			{Name: "As", T: desc.Slice(desc.Ptr(desc.Named("ItemA"))), Tags: map[string]string{"valid": "exist"}},
+			{Name: "Bs", T: desc.Map(desc.Scalar("string"), desc.Named("ItemB")), Tags: map[string]string{"valid": "exist"}},
+		}}
+		c = &StructCase{Root: desc.Ptr(holder), Val: desc.V{E: []desc.V{{E: []desc.V{item("a"), item("b"),
+			{E: []desc.V{{E: []desc.V{item("as")}}}}, {K: []desc.V{desc.Str("k")}, E: []desc.V{item("bs")}}}}}},
+			PerType: map[string]map[string]string{}}
+		which := rapid.SampledFrom([]string{"ItemA", "ItemB"}).Draw(t, "ruledType")
+		c.PerType[which] = map[string]string{"Name": rapid.SampledFrom([]string{"to=3~9|per-type name", "prefix=a|per-type name"}).Draw(t, "ptRule")}
+		c.CallFns = callFns
+		c.pickEntry(rapid.IntRange(0, 7).Draw(t, "entry"))
+		return c
+	}
 	if rapid.IntRange(0, 3).Draw(t, "mode") > 0 {
 		c = genNamedCase(t, namedOpts{roots: []string{"Top", "Mid", "Tree"}, marks: []string{"required", "exist", "required", "-"},
 			msgMode: 3, maxDepth: 3, density: 5, extra: c16Names, unscoped: true,
@@ -90,6 +110,30 @@ func genC16Case(t *rapid.T) *StructCase {
 	}
 	c.CallFns = callFns
 	c.pickEntry(rapid.IntRange(0, 7).Draw(t, "entry"))
+	if rapid.IntRange(0, 7).Draw(t, "lateReg") == 0 {
+		// a global function registered while the call is being set up (for the builder entry: after
+		// the validator object exists): the name resolves to it when the validation runs
+		c.LateReg = "LATE1"
+		if c.Unscoped == nil {
+			c.Unscoped = map[string]string{}
+		}
+		if len(c.PerType) > 0 {
+			c.Unscoped = nil
+			for _, rm := range c.PerType {
+				for k := range rm {
+					rm[k] += ",LATE1"
+				}
+			}
+		} else {
+			c.Unscoped["Name"] = "LATE1"
+			c.Unscoped["A"] = "to=1~2|late,LATE1"
+		}
+		if rapid.Bool().Draw(t, "lateBuilder") {
+			c.Entry = "VStruct"
+		} else {
+			c.pickEntry(rapid.IntRange(0, 7).Draw(t, "entry2"))
+		}
+	}
 	return c
 }
 
